@@ -37,7 +37,7 @@ vars == <<env, argv, ph, flagDefault, val, cached, isCached, passes>>
 Absent == "absent"                        \* only for the boolean flag
 No == [g |-> FALSE, s |-> {}]             \* a list option that is not given
 L(S) == [g |-> TRUE, s |-> S]             \* a list option given with the item set S
-PathTokens == {"testdata", "zzgen", "nomatch"}
+PathTokens == {"testdata", "zzgen", "zzgen/g", "nomatch"}   \* zzgen/g: an entry that spans the boundary between directory and file name (zzgen/g.go)
 JunkTokens == {"FOO", "IMM0", "IM", "ALLL"}
 CheckTokens == {"ALL"} \cup Cats \cup AllCodes \cup JunkTokens
 
@@ -60,7 +60,7 @@ EffCfg == [scan |-> Eff("scan"), paths |-> Eff("paths"), checks |-> Eff("checks"
 (***************************************************************************)
 ScanEnv == {"unset", "empty", "true", "false", "garbage"}
 ScanArg == {Absent, "true", "false"}
-PathVals == {No} \cup {L(S) : S \in {{}, {"testdata"}, {"zzgen"}, {"testdata", "zzgen"}, {"nomatch"}}}
+PathVals == {No} \cup {L(S) : S \in {{}, {"testdata"}, {"zzgen"}, {"testdata", "zzgen"}, {"nomatch"}, {"zzgen/g"}}}
 CheckVals == {No} \cup {L(S) : S \in {{}, {"IMM01"}, {"CTOR"}, {"ALL"}, {"FOO"}, {"IMM01", "TONL"}}}
 DefEnv == [scan |-> "unset", paths |-> No, checks |-> No]
 DefArg == [scan |-> Absent, paths |-> No, checks |-> No]
@@ -149,7 +149,7 @@ Skip(cls, c) == \/ cls = "ignored"
                 \/ cls = "test" /\ ~c.scan
                 \/ cls = "tdpath" /\ "testdata" \in c.paths
                 \/ cls = "tdtest" /\ (~c.scan \/ "testdata" \in c.paths)
-                \/ cls = "genpath" /\ "zzgen" \in c.paths
+                \/ cls = "genpath" /\ ("zzgen" \in c.paths \/ "zzgen/g" \in c.paths)
 Excluded(code, c) == \E t \in c.checks : Matches(t, code)
 Visible(c) == {p \in Plants : ~Skip(p.cls, c) /\ ~Excluded(p.code, c)}
 
